@@ -191,7 +191,7 @@ func NewCountingBloomFilter(
 		return nil, ErrEmptyCountingBloomFilterName
 	}
 
-	if falsePositiveRate <= 0 {
+	if !(falsePositiveRate > 0) { // also rejects NaN, which passes both range comparisons
 		return nil, ErrCountingBloomFilterFalsePositiveRateLessThanEqualZero
 	}
 	if falsePositiveRate >= 1 {
